@@ -198,6 +198,7 @@ func c10QueryOracle(t reflect.Type, v reflect.Value, names []string) []byte {
 
 func runC10(o *Out) {
 	child := os.Args[1] == "C10child"
+	c10QueryFirstUse(o)
 	r := o.rng
 	type cfg struct{ g, p int }
 	cfgs := []cfg{{2, 1}, {4, 2}, {8, 4}, {16, 8}, {64, 16}, {32, 1}, {48, 3}, {3, 16}}
